@@ -36,6 +36,17 @@ NEVER_ISSUE = {"fork", "vfork", "clone", "clone3", "pause", "rt_sigreturn", "syn
                # kernel exemption: seccomp lets these two through unfiltered (seccomp_uprobe_exception,
                # Linux >= 6.14) and sys_uretprobe outside a trampoline raises SIGILL
                "uretprobe", "uprobe"}
+# sampled in the launch-option witness, where some combinations keep root's capabilities: calls that
+# neither block nor change anything with all arguments -1, and that never return ENOSYS/EPERM by
+# themselves (so "the call ran" is distinguishable from every non-allow verdict)
+SAFE = ["getpid", "getppid", "getuid", "geteuid", "getgid", "getegid", "gettid", "getpgrp", "getsid", "getpgid",
+        "sched_yield", "close", "dup", "dup2", "fstat", "lseek", "fsync", "fdatasync", "flock", "fchdir", "fchmod",
+        "getdents64", "ioctl", "fcntl", "umask", "getcwd", "times", "sysinfo", "uname", "getrusage", "getrlimit",
+        "getpriority", "sched_getscheduler", "sched_getparam", "sched_get_priority_max", "capget", "rt_sigpending",
+        "sigaltstack", "stat", "lstat", "access", "readlink", "chdir", "madvise", "mincore", "munmap", "msync",
+        "mprotect", "time", "gettimeofday", "clock_gettime", "clock_getres", "nanosleep", "getitimer", "getgroups",
+        "getresuid", "getresgid", "getcpu", "pipe", "pread64", "readv", "fadvise64", "ftruncate", "fstatfs", "statfs"]
+DEFAULT_OPT = {"unshare": False, "caps": "drop", "sync": False, "mode": "plain"}
 I386_SAFE = [20, 24, 47, 49, 50, 64, 199, 200, 201, 202, 224, 1023]   # getpid/get*id/gettid, one invalid
 
 
@@ -143,7 +154,7 @@ def make_kernel_cases(ctx, table):
     cases = []
     nk = ctx.pick(3, 20)
     sizes = [(15, 10), (270, 40), (60, 290)] + [(rng.randrange(0, 200), rng.randrange(0, 170)) for _ in range(nk)]
-    per = ctx.pick(14, 36)
+    per = ctx.pick(8, 36)
     defs = DEFS + DEFS_HI[:2]
     rng.shuffle(defs)
     for k in range(nk):
@@ -157,17 +168,55 @@ def make_kernel_cases(ctx, table):
         chosen = pick(a) + pick(t) + pick(rest) + [n for n in ("getpid", "getuid", "exit_group") if n in table]
         for n in chosen:
             smp.append({"m": "n", "nr": w32(table[n])})
-        for n in rng.sample(chosen, min(10, len(chosen))):
+        for n in rng.sample(chosen, min(ctx.pick(5, 10), len(chosen))):
             smp.append({"m": "n", "nr": w32(table[n] | 0x40000000)})
         for v in (600, 1000, 0x3FFFFFFF, 0x40000000, 0x7FFFFFFF, 0x80000000 | table["getpid"], 0xC0000000 | table["getpid"]):
             if v not in inv:
                 smp.append({"m": "n", "nr": w32(v)})
-        for v in rng.sample(I386_SAFE, 4):
+        for v in rng.sample(I386_SAFE, ctx.pick(2, 4)):
             smp.append({"m": "i", "nr": w32(v)})
+        smp.insert(0, {"m": "w", "nr": w32(0)})
         for s in smp:
             s.update({"o": "", "v": 0, "d": ""})
         cases.append({"id": "kern%d" % (k + 1), "kind": "kernel", "allow": a, "trace": t,
-                      "def": defs[k % 8], "extra": [], "samples": smp})
+                      "def": defs[k % 8], "extra": [], "samples": smp, "opt": dict(DEFAULT_OPT)})
+    return cases + make_option_cases(ctx, table)
+
+
+def make_option_cases(ctx, table):
+    """the same witness over the forkexec.Runner options that select where the child loads the filter
+    (early site / late site after the parent sync / under ptrace / after the SIGSTOP of StopBeforeSeccomp)"""
+    rng = ctx.rng
+    safe = [n for n in SAFE if n in table]
+    others = sorted(n for n in table if n not in set(safe) | {"execve", "read", "write"})
+    combos = [(u, c, sy, m) for u in (False, True) for c in ("none", "drop", "cred") for sy in (False, True)
+              for m in ("plain", "ptrace", "stop")
+              if not (m == "stop" and sy)]     # not startable: Start() waits for the sync of a child that has stopped itself
+    npol = 2
+    na, nt, nn = ctx.pick((1, 2, 1), (3, 4, 4))
+    pols = []
+    for d in rng.sample([4, 3, 0, 5], npol):
+        names = rng.sample(safe, len(safe))
+        third = len(names) // 3
+        pad = rng.sample(others, 12)
+        # the child's sync with its parent (write, read) can run under the filter, like execve
+        pols.append({"allow": ["execve", "read", "write"] + names[:third] + pad[:6], "trace": names[third:2 * third] + pad[6:],
+                     "rest": names[2 * third:], "def": d})
+    cases = []
+    for k, (u, c, sy, m) in enumerate(combos):
+        for pi in (range(npol) if not ctx.quick() else [k % npol]):
+            p = pols[pi]
+            a = rng.sample(p["allow"][3:3 + len(safe) // 3], na)
+            smp = [{"m": "w", "nr": w32(0)}]
+            for n in a + rng.sample(p["trace"][:len(safe) // 3], nt) + rng.sample(p["rest"], nn):
+                smp.append({"m": "n", "nr": w32(table[n])})
+            if not ctx.quick():
+                smp.append({"m": "n", "nr": w32(table[a[0]] | 0x40000000)})
+            for s in smp:
+                s.update({"o": "", "v": 0, "d": ""})
+            cases.append({"id": "opt%d.%d" % (k + 1, pi + 1), "kind": "kernel-opt", "allow": p["allow"], "trace": p["trace"],
+                          "def": p["def"], "extra": [], "samples": smp,
+                          "opt": {"unshare": u, "caps": c, "sync": sy, "mode": m}})
     return cases
 
 
@@ -321,11 +370,16 @@ def decide(ctx, th, gen):
     for b in ctx.read_ndjson(os.path.join(j.dir, "kbad.ndjson")):
         l = klines[b["i"] - 1]
         s = l["obs"][b["j"] - 1]
-        case = {"id": l["id"], "allow": l["nallow"], "trace": l["ntrace"], "def": hexw(l["def"]), "entry": s["m"],
+        optsig = "unshare=%d,caps=%s,sync=%d,mode=%s" % (l["opt"]["unshare"], l["opt"]["caps"], l["opt"]["sync"], l["opt"]["mode"])
+        case = {"id": l["id"], "runner_options": optsig, "allow": l["nallow"], "trace": l["ntrace"], "def": hexw(l["def"]), "entry": s["m"],
                 "nr": hexw(s["nr"]), "died": "%s %d %s" % (s["o"], s["v"], s["d"]), "my_bpf_reading": hexw(b["ret"]),
                 "acceptable": b["accept"]}
         if b["v"] == "model":
             model_wrong.append(case)
+        elif b["v"] == "notinstalled":
+            ctx.violation("kernel:filter-not-installed:%s" % optsig,
+                          "Runner.Seccomp was set but the exec'ed child does not run under exactly that one filter "
+                          "(/proc/<pid>/status: Seccomp mode %d, %d filter(s) added)" % (s["v"] // 1000, s["v"] % 1000), case)
         elif b["v"] == "execblocked":
             ctx.violation("kernel:exec-blocked", "policy allows execve but the program handed to the kernel does not: "
                           "the probe could not be exec'ed under the filter (%s)" % case["died"], case)
@@ -343,6 +397,8 @@ def decide(ctx, th, gen):
                       "precedence (%s)" % b["v"], o)
     ctx.traces = nobs - skipped
     ctx.cov["kernel_policies"] = len(klines)
+    ctx.cov["kernel_launch_option_combinations"] = len({json.dumps(l["opt"], sort_keys=True) for l in klines})
+    ctx.cov["kernel_seccomp_state_reads"] = sum(1 for l in klines for o in l["obs"] if o["o"] == "status")
     ctx.cov["kernel_observations"] = nobs
     ctx.cov["kernel_rows_skipped_no_int80"] = skipped
     ctx.cov["kernel_truth_mismatches"] = len(model_wrong)
